@@ -10,6 +10,7 @@ package main
 
 import (
 	"fmt"
+	"io/fs"
 	"os"
 	"path/filepath"
 	"sort"
@@ -67,6 +68,7 @@ type dsys struct {
 	previous map[string]bool // content before the modification
 	key      string
 	trace    bool
+	kept     keeper // every DirEntry, and the FileInfo of its Info(), the emulated handles have delivered since Reset (kept.go)
 }
 
 func buildDirOps() []dop {
@@ -124,6 +126,7 @@ func (s *dsys) Reset() error {
 
 	s.v = newVFS(s.fsName)
 	_ = s.v.SetUMask(0o022)
+	s.kept.reset(s.v)
 
 	if err := s.v.MkdirAll(s.dp, 0o755); err != nil {
 		return fmt.Errorf("avfs MkdirAll(R/d): %v", err)
@@ -234,7 +237,8 @@ func (r dres) String() string {
 	return fmt.Sprintf("%s %v %s", r.Kind, r.Names, r.Msg)
 }
 
-func dcall(h hfile, o dop) dres {
+// dcall executes a call on one side; keep (nil on the kernel side) is given every entry a ReadDir delivers.
+func dcall(h hfile, o dop, keep func(call string, de fs.DirEntry)) dres {
 	switch o.Kind {
 	case "ReadDir":
 		es, err := h.ReadDir(o.N)
@@ -247,6 +251,10 @@ func dcall(h hfile, o dop) dres {
 			}
 
 			r.Names = append(r.Names, n)
+
+			if keep != nil {
+				keep(o.String(), e)
+			}
 		}
 
 		// what a caller may do with a slice it was given: overwrite it and append to
@@ -311,6 +319,8 @@ func (s *dsys) Step(i int) bfs.StepResult {
 
 		var rk, rv res
 
+		s.kept.next()
+
 		p := s.dp + "/c"
 
 		if o.Kind == "Create" {
@@ -357,6 +367,10 @@ func (s *dsys) Step(i int) bfs.StepResult {
 			broken = true
 		}
 
+		if !broken {
+			viols = append(viols, s.keptViols(o, "-", "", szCls, rk.Kind, rv.Kind)...)
+		}
+
 		s.mkKey()
 
 		if broken {
@@ -392,11 +406,13 @@ func (s *dsys) Step(i int) bfs.StepResult {
 		}
 	}
 
-	rk := dcall(sl.k, o)
+	rk := dcall(sl.k, o, nil)
 
 	var rv dres
 
-	gk, gmsg := fsx.Guard(func() { rv = dcall(sl.v, o) })
+	s.kept.next()
+
+	gk, gmsg := fsx.Guard(func() { rv = dcall(sl.v, o, s.kept.keepEntry) })
 	if gk != "" {
 		rv = dres{Kind: gk, Msg: gmsg}
 	}
@@ -502,6 +518,12 @@ func (s *dsys) Step(i int) bfs.StepResult {
 
 	broken := len(viols) > 0
 
+	// entries delivered earlier must still read as they did (kept.go); a changed value does not
+	// make the futures of the two sides incomparable
+	if gk == "" {
+		viols = append(viols, s.keptViols(o, hclass, arg, szCls, kc, vc)...)
+	}
+
 	s.mkKey()
 
 	if broken {
@@ -511,6 +533,21 @@ func (s *dsys) Step(i int) bfs.StepResult {
 	s.tracef(o.String(), rk.String(), rv.String(), viols)
 
 	return bfs.StepResult{Changed: s.key != keyBefore, Key: s.key, Broken: broken, Rebuild: broken, Outcome: "dir." + o.Kind + "/" + kc, Viols: dedupViols(viols)}
+}
+
+// keptViols reads every value the emulated handles have delivered so far again (kept.go).
+func (s *dsys) keptViols(o dop, hclass, arg, szCls, kc, vc string) (viols []bfs.Viol) {
+	for _, kd := range s.kept.check() {
+		viols = append(viols, bfs.Viol{
+			Sig: map[string]string{
+				"fs": s.fsName, "call": "dir." + o.Kind, "handle": hclass, "arg": arg, "sizeclass": szCls, "kernel": kc, "avfs": vc,
+				"kind": "kept-value", "from": kd.from, "diff": kd.diff,
+			},
+			Detail: detail{What: kd.what, Call: o.String(), Expected: kd.was, Observed: kd.now}.String(),
+		})
+	}
+
+	return viols
 }
 
 func dedupViols(vs []bfs.Viol) []bfs.Viol {
